@@ -112,11 +112,11 @@ int main (int argc, char **argv)
 	vh_init (argc, argv, "c04_closed_file", "C04") ;
 	vh_enum_formats () ;
 	for (f = 0 ; f < vh_nfmts ; f++)
-	{	int chs [8], nch ;
+	{	int chs [12], nch ;
 		if (vh_fmts [f].major == SF_FORMAT_SD2) continue ;
 		for (e = 0 ; e < 4 ; e++)
 		{	int format = vh_fmts [f].format | endians [e] ;
-			nch = vh_channels_for (format, chs, 8, vh_thorough) ;
+			nch = vh_channels_for (format, chs, 12, vh_thorough) ;
 			for (c = 0 ; c < nch ; c++)
 			{	int ch = chs [c] ;
 				for (r = 0 ; r < 14 ; r++)
